@@ -377,7 +377,8 @@ func (this *Dataset) Search(ctx context.Context, query math.Vector, k uint) (ind
 		go this.searchPartitionsOnNode(ctx, nodeId, partitionIds, query, k, wg, resultCh, errorCh)
 	}
 
-	result := make(index.SearchResult, 0, int(k)*len(nodePartitions))
+	// Not pre-sized: k comes from the request and may be far larger than what the partitions hold.
+	result := make(index.SearchResult, 0)
 	for i := 0; i < len(nodePartitions); i++ {
 		verifGate("search.collect", i)
 		select {
@@ -420,7 +421,7 @@ func (this *Dataset) SearchPartitions(ctx context.Context, partitionIds []uuid.U
 		go this.searchPartition(ctx, partition, query, k, wg, resultCh, errorCh)
 	}
 
-	result := make(index.SearchResult, 0, int(k)*len(partitions))
+	result := make(index.SearchResult, 0)
 	for i := 0; i < len(partitions); i++ {
 		verifGate("searchpartitions.collect", i)
 		select {
@@ -524,7 +525,7 @@ func (this *Dataset) searchPartitionsOnNode(ctx context.Context, nodeId uint64, 
 		return
 	}
 
-	result := make(index.SearchResult, 0, k)
+	result := make(index.SearchResult, 0)
 	for {
 		item, err := stream.Recv()
 		if err == io.EOF {
